@@ -362,6 +362,9 @@ func TestVerifC09(t *testing.T) {
 	}
 	scripts, tags := c09Scripts(vthorough())
 	for i, s := range scripts {
+		if ltsAbort() {
+			break
+		}
 		obs := ltsPlay(s)
 		o.line("lts "+s+" #"+tags[i], obs)
 		// sessions with an established connection that were ended: judged by the monitor as well.
